@@ -1364,11 +1364,17 @@ _vbi_cache_foreach_page		(vbi_cache *		ca,
 	if (0 == cn->n_cached_pages)
 		return 0;
 
-	if ((cp = _vbi_cache_get_page (ca, cn, pgno, subno, -1))) {
-		subno = cp->subno;
-	} else if (VBI_ANY_SUBNO == subno) {
-		cp = NULL;
-		subno = 0;
+	/* Exact look-up: vbi_search_new() has already replaced
+	   VBI_ANY_SUBNO, a sub-page number 0x3F7F arriving here is the
+	   sub-code of the (hex) page the search continues from, and
+	   _vbi_cache_get_page() would return the most recently used
+	   subpage for it.  The range test keeps hash() inside the
+	   table; cache_network_page_stat() asserts it below. */
+	cp = NULL;
+	if (pgno >= 0x100 && pgno <= 0x8FF) {
+		cp = page_by_pgno (ca, cn, pgno, subno, -1);
+		if (NULL != cp)
+			cp = cache_page_ref (cp);
 	}
 
 	ps = cache_network_page_stat (cn, pgno);
